@@ -3,6 +3,7 @@ package main
 import (
 	"bytes"
 	"fmt"
+	"net"
 	"sync"
 	"time"
 
@@ -60,6 +61,27 @@ func runC08(c *Ctx) {
 	_, attDER, _ := issueSM2(certSpec{cn: "client sign", serial: 20, keyUsage: kuS, eku: []gx509.ExtKeyUsage{gx509.ExtKeyUsageClientAuth}}, &attKey.PublicKey, nil, attKey, r)
 	victimThenOwn := gmtls.Certificate{Certificate: [][]byte{pki.cliSigCert.Raw, attDER}, PrivateKey: attKey}
 	ownThenVictim := gmtls.Certificate{Certificate: [][]byte{attDER, pki.cliSigCert.Raw}, PrivateKey: attKey}
+	// a forged pair that only *looks like* the trusted root: self-signed, same subject and serial number as the root,
+	// the victim's name in the SAN, keys owned by the forger
+	lookalike := func(ku gx509.KeyUsage) gmtls.Certificate {
+		k := newSM2Key(r)
+		_, der, e := issueSM2(certSpec{cn: "Verif TLS Root", serial: 1, dns: []string{tlsServerName}, keyUsage: ku, eku: []gx509.ExtKeyUsage{gx509.ExtKeyUsageServerAuth, gx509.ExtKeyUsageClientAuth}}, &k.PublicKey, nil, k, r)
+		if e != nil {
+			return gmtls.Certificate{}
+		}
+		return gmtls.Certificate{Certificate: [][]byte{der}, PrivateKey: k}
+	}
+	lookSig, lookEnc := lookalike(kuS), lookalike(kuE)
+	// certificates carrying an IP SAN (positive control for IP-literal server names)
+	ipCert := func(cn string, serial int64, ku gx509.KeyUsage) gmtls.Certificate {
+		k := newSM2Key(r)
+		_, der, e := issueSM2(certSpec{cn: cn, serial: serial, keyUsage: ku, eku: []gx509.ExtKeyUsage{gx509.ExtKeyUsageServerAuth}, mutate: func(t *gx509.Certificate) { t.IPAddresses = []net.IP{net.ParseIP("127.0.0.1"), net.ParseIP("::1")} }}, &k.PublicKey, pki.root, pki.rootKey, r)
+		if e != nil {
+			return gmtls.Certificate{}
+		}
+		return gmtls.Certificate{Certificate: [][]byte{der}, PrivateKey: k}
+	}
+	ipSig, ipEnc := ipCert("server sign", 109, kuS), ipCert("server enc", 110, kuE)
 	wrongKey := func(c gmtls.Certificate) gmtls.Certificate {
 		return gmtls.Certificate{Certificate: c.Certificate, PrivateKey: newSM2Key(r)}
 	}
@@ -71,6 +93,7 @@ func runC08(c *Ctx) {
 		auth     gmtls.ClientAuthType
 		attacked string // which side must return an error: client | server
 		suite    uint16
+		srvName  string // name the client asks for (default tlsServerName)
 	}
 	var ids []idCase
 	for _, su := range suites {
@@ -90,6 +113,16 @@ func runC08(c *Ctx) {
 		add("server-wrong-name-enc-cert", []gmtls.Certificate{pki.sig, nameEnc}, "client")
 		add("server-san-other-host-cn-requested-sign-cert", []gmtls.Certificate{sanOtherSig, pki.enc}, "client")
 		add("server-san-other-host-cn-requested-enc-cert", []gmtls.Certificate{pki.sig, sanOtherEnc}, "client")
+		add("server-root-lookalike-certificates(same subject+serial as the trusted root, self-signed)", []gmtls.Certificate{lookSig, lookEnc}, "client")
+		add("server-root-lookalike-sign-cert-only", []gmtls.Certificate{lookSig, pki.enc}, "client")
+		// the client asks for an IP literal: certificates issued to a DNS name only are not valid for it
+		for _, ipn := range []string{"127.0.0.1", "::1", "[::1]", "10.1.2.3"} {
+			ids = append(ids, idCase{name: "server-dns-only-certificates-for-ip-literal-name/" + ipn, srvCerts: []gmtls.Certificate{pki.sig, pki.enc}, attacked: "client", suite: su, srvName: ipn})
+		}
+		ids = append(ids, idCase{name: "server-ip-san-certificates-for-other-ip/10.1.2.3", srvCerts: []gmtls.Certificate{ipSig, ipEnc}, attacked: "client", suite: su, srvName: "10.1.2.3"})
+		for _, ipn := range []string{"127.0.0.1", "[::1]"} {
+			ids = append(ids, idCase{name: "control/ip-san-certificates/" + ipn, srvCerts: []gmtls.Certificate{ipSig, ipEnc}, attacked: "none", suite: su, srvName: ipn})
+		}
 		add("server-sign-and-enc-swapped", []gmtls.Certificate{pki.enc, pki.sig}, "client")
 		add("server-rsa-certificates", []gmtls.Certificate{pki.rsaCert, pki.rsaCert}, "client")
 		add("server-p256-sign-cert", []gmtls.Certificate{pki.ecCert, pki.enc}, "client")
@@ -100,6 +133,7 @@ func runC08(c *Ctx) {
 			ids = append(ids, idCase{name: "client-cert-untrusted/" + authName(a), srvCerts: []gmtls.Certificate{pki.sig, pki.enc}, cliCerts: []gmtls.Certificate{pki.other.cliSig, pki.other.cliEnc}, auth: a, attacked: "server", suite: su})
 			ids = append(ids, idCase{name: "client-victim-leaf-then-own-cert-signed-with-own-key/" + authName(a), srvCerts: []gmtls.Certificate{pki.sig, pki.enc}, cliCerts: []gmtls.Certificate{victimThenOwn, pki.cliEnc}, auth: a, attacked: "server", suite: su})
 			ids = append(ids, idCase{name: "client-own-cert-then-victim-leaf-signed-with-own-key/" + authName(a), srvCerts: []gmtls.Certificate{pki.sig, pki.enc}, cliCerts: []gmtls.Certificate{ownThenVictim, pki.cliEnc}, auth: a, attacked: "server", suite: su})
+			ids = append(ids, idCase{name: "client-root-lookalike-certificate/" + authName(a), srvCerts: []gmtls.Certificate{pki.sig, pki.enc}, cliCerts: []gmtls.Certificate{lookSig, lookEnc}, auth: a, attacked: "server", suite: su})
 			ids = append(ids, idCase{name: "client-cert-expired/" + authName(a), srvCerts: []gmtls.Certificate{pki.sig, pki.enc}, cliCerts: []gmtls.Certificate{expCli}, auth: a, attacked: "server", suite: su})
 			ids = append(ids, idCase{name: "client-cert-is-a-server-enc-cert-of-other-pki/" + authName(a), srvCerts: []gmtls.Certificate{pki.sig, pki.enc}, cliCerts: []gmtls.Certificate{pki.other.enc}, auth: a, attacked: "server", suite: su})
 		}
@@ -112,12 +146,16 @@ func runC08(c *Ctx) {
 		rr := c.Rng(fmt.Sprintf("id%d", i))
 		scfg, ccfg := mkS(rr, ic.suite, ic.auth), mkC(rr, ic.suite)
 		scfg.Certificates, ccfg.Certificates = ic.srvCerts, ic.cliCerts
+		if ic.srvName != "" {
+			ccfg.ServerName = ic.srvName
+		}
 		out := handshakePair(ccfg, scfg, nil)
 		w := map[string]interface{}{"attack": ic.name, "suite": suiteName(ic.suite), "client_error": errStr(out.cli.err), "server_error": errStr(out.srv.err)}
 		c08Judge(rep, "identity/"+ic.name, ic.attacked, out, w)
 		rep.Eval("identity/" + ic.name + "/" + suiteName(ic.suite))
 	})
 
+	runC08Resumption(c, pki)
 	runC08Scripted(c, pki)
 	runC08MITM(c, pki, mkC, mkS)
 	runC08TLS12(c, pki)
@@ -651,4 +689,77 @@ func runC08TLS12(c *Ctx, pki *tlsPKI) {
 			rep.EvalTrivial("tls12-mitm/not-reached")
 		}
 	})
+}
+
+// ---- (1b) resumption must not bypass client authentication: a ticket obtained where the policy is lax (or while the
+// certificate was still valid) must not let the client complete where verified client certificates are required.
+func runC08Resumption(c *Ctx, pki *tlsPKI) {
+	rep := c.Rep
+	r := c.Rng("c08resume")
+	type mode struct {
+		name   string
+		gm     bool
+		suites []uint16
+	}
+	modes := []mode{{"GMSSL/CBC", true, []uint16{gmtls.GMTLS_ECC_SM4_CBC_SM3}}, {"GMSSL/GCM", true, []uint16{gmtls.GMTLS_ECC_SM4_GCM_SM3}}, {"TLS1.2", false, []uint16{gmtls.TLS_ECDHE_RSA_WITH_AES_128_GCM_SHA256}}}
+	// a trusted client certificate with a short life, for the expiry scenario
+	shortKey := newSM2Key(r)
+	_, shortDER, _ := issueSM2(certSpec{cn: "client short", serial: 120, keyUsage: gx509.KeyUsageDigitalSignature, eku: []gx509.ExtKeyUsage{gx509.ExtKeyUsageClientAuth},
+		notBefore: fixedNow.Add(-time.Hour), notAfter: fixedNow.Add(time.Hour)}, &shortKey.PublicKey, pki.root, pki.rootKey, r)
+	shortCert := gmtls.Certificate{Certificate: [][]byte{shortDER}, PrivateKey: shortKey}
+	for _, m := range modes {
+		for _, scen := range []string{"ticket-from-lax-server-offered-to-strict-server", "client-certificate-expires-between-connections", "control"} {
+			var key [32]byte
+			r.Fill(key[:])
+			now1, now2 := fixedNow, fixedNow
+			mkSrv := func(auth gmtls.ClientAuthType, now *time.Time) *gmtls.Config {
+				cfg := &gmtls.Config{CipherSuites: m.suites, ClientAuth: auth, ClientCAs: pki.pool, Time: func() timeT { return *now }, Rand: mon.NewRNG(r.U64())}
+				if m.gm {
+					cfg.GMSupport, cfg.Certificates = gmtls.NewGMSupport(), []gmtls.Certificate{pki.sig, pki.enc}
+				} else {
+					cfg.Certificates, cfg.MinVersion = []gmtls.Certificate{pki.rsaCert}, gmtls.VersionTLS12
+				}
+				cfg.SetSessionTicketKeys([][32]byte{key})
+				return cfg
+			}
+			cache := gmtls.NewLRUClientSessionCache(4)
+			mkCli := func(certs []gmtls.Certificate) *gmtls.Config {
+				cfg := &gmtls.Config{ServerName: tlsServerName, CipherSuites: m.suites, Time: func() timeT { return fixedNow }, Rand: mon.NewRNG(r.U64()), ClientSessionCache: cache, Certificates: certs}
+				if m.gm {
+					cfg.GMSupport, cfg.RootCAs = gmtls.NewGMSupport(), pki.pool
+				} else {
+					cfg.RootCAs, cfg.MinVersion, cfg.MaxVersion = pki.gmStdPool, gmtls.VersionTLS12, gmtls.VersionTLS12
+				}
+				return cfg
+			}
+			var first, second *gmtls.Config
+			var certs []gmtls.Certificate
+			attacked := "server"
+			switch scen {
+			case "ticket-from-lax-server-offered-to-strict-server":
+				certs = []gmtls.Certificate{pki.other.cliSig, pki.other.cliEnc} // not under the server's client CAs
+				first, second = mkSrv(gmtls.RequireAnyClientCert, &now1), mkSrv(gmtls.RequireAndVerifyClientCert, &now2)
+			case "client-certificate-expires-between-connections":
+				certs = []gmtls.Certificate{shortCert, pki.cliEnc}
+				first, second = mkSrv(gmtls.RequireAndVerifyClientCert, &now1), mkSrv(gmtls.RequireAndVerifyClientCert, &now2)
+				now2 = fixedNow.Add(3 * time.Hour)
+			default:
+				certs = []gmtls.Certificate{pki.cliSig, pki.cliEnc}
+				first, second = mkSrv(gmtls.RequireAndVerifyClientCert, &now1), mkSrv(gmtls.RequireAndVerifyClientCert, &now2)
+				attacked = "none"
+			}
+			o1 := handshakePair(mkCli(certs), first, nil)
+			w := map[string]interface{}{"mode": m.name, "scenario": scen, "first_client_error": errStr(o1.cli.err), "first_server_error": errStr(o1.srv.err)}
+			if !o1.cli.completed || !o1.srv.completed {
+				rep.Violation("C08/resumption/first-connection-fails/"+scen, fmt.Sprintf("%v / %v", o1.cli.err, o1.srv.err), w)
+				continue
+			}
+			o1.cli.conn.Close()
+			o1.srv.conn.Close()
+			o2 := handshakePair(mkCli(certs), second, nil)
+			w["second_client_error"], w["second_server_error"], w["second_resumed"] = errStr(o2.cli.err), errStr(o2.srv.err), o2.srv.completed && o2.srv.state.DidResume
+			c08Judge(rep, "resumption/"+scen+"/"+m.name, attacked, o2, w)
+			rep.Eval("resumption/" + scen + "/" + m.name)
+		}
+	}
 }
